@@ -1,3 +1,8 @@
+(* MOVED OUT OF coq/: by design this file compiles only against the UNREPAIRED source
+   (can_emit uses pos_eq): /repo at any commit before 4f41bab (pos_eq in the second disjunct of can_emit()).
+   To replay: check out such a commit into a scratch tree T, then
+     VERIF_REPO=T python3 -c "import sys; sys.path[:0]=['/verif/lib','/verif/checks']; import schedx_part as sp; print(sp.model_exhibits('XF8Refuted'))"
+   (regenerates Gen/ for T in the alt tree and compiles this file against it). *)
 (* Finding F8 (deadlock with spurious candidates), for the source as it is NOW:
    C11x_progress is refuted.  Compiles only while can_emit() lets the reserved output
    slots be used solely by a job whose base EQUALS the head of order_q (pos_eq): a
